@@ -20,9 +20,9 @@ type Unit struct {
 	// Straddle > 0: the last Straddle bytes of the previous unit of this PID are carried at the
 	// start of this unit's first packet, announced by pointer_field (ISO 13818-1 2.4.4.1: a
 	// section may end in a packet in which the next one starts). Pointer is ignored then.
-	Straddle int `json:"straddle,omitempty"`
-	AF       *AF `json:"af,omitempty"` // content of the first packet's adaptation field (stuffing is added as needed)
-	Prio   bool  `json:"prio,omitempty"` // transport_priority on the unit's packets
+	Straddle int  `json:"straddle,omitempty"`
+	AF       *AF  `json:"af,omitempty"`   // content of the first packet's adaptation field (stuffing is added as needed)
+	Prio     bool `json:"prio,omitempty"` // transport_priority on the unit's packets
 }
 
 func (u *Unit) IsPES() bool { return u.PES != nil }
